@@ -49,7 +49,8 @@ type concWorld struct{}
 
 func (concWorld) Name() string { return "W-CONC" }
 
-var concPrivateOps = []string{"new", "dec-cbor", "decv-cbor", "dec-json", "decv-json", "dec-cose", "decv-cose", "build-enc", "sign", "sign-verify", "dec-cbor-damaged", "dec-json-damaged"}
+var concPrivateOps = []string{"new", "dec-cbor", "decv-cbor", "dec-json", "decv-json", "dec-cose", "decv-cose", "build-enc", "sign", "sign-verify", "dec-cbor-damaged", "dec-json-damaged",
+	"dec-json-dep", "decv-json-dep", "unmarshal-cose", "claims-unmarshal"}
 var concSharedOps = []string{"s.validate", "s.getters", "s.enc-cbor", "s.enc-json", "s.venc", "s.verify", "s.evjson", "s.full"}
 
 func (concWorld) Gen(prop, tier string, idx int, r *Rng) *Trace {
@@ -64,6 +65,11 @@ func (concWorld) Gen(prop, tier string, idx int, r *Rng) *Trace {
 		d := genValidClaims(r, pf)
 		if r.Chance(1, 6) {
 			d = genInvalidClaims(r, pf)
+		} else if r.Chance(1, 10) && len(d.Sw) > 0 {
+			// an unusual but legal claims-set: a few hundred software components
+			for n := r.Range(257, 300); len(d.Sw) < n; {
+				d.Sw = append(d.Sw, genSw(r))
+			}
 		}
 		cfg.Claims = append(cfg.Claims, d)
 	}
@@ -215,6 +221,29 @@ func (e *concEnv) do(op Op) string {
 		return digestClaims(psatoken.DecodeClaimsFromJSON(cp(e.jsn[ci])))
 	case "decv-json":
 		return digestClaims(psatoken.DecodeAndValidateClaimsFromJSON(cp(e.jsn[ci])))
+	case "dec-json-dep":
+		return digestClaims(psatoken.DecodeUnvalidatedJSONClaims(cp(e.jsn[ci]))) //nolint:staticcheck
+	case "decv-json-dep":
+		return digestClaims(psatoken.DecodeJSONClaims(cp(e.jsn[ci]))) //nolint:staticcheck
+	case "unmarshal-cose":
+		ev := &psatoken.Evidence{}
+		if err := ev.UnmarshalCOSE(cp(e.cose[ci])); err != nil {
+			return "err"
+		}
+		return hash8(fullObs(ev.Claims)) + okOrErr(ev.Verify(pubKey(op.D)))
+	case "claims-unmarshal":
+		c, err := psatoken.NewClaims(profileNameOf(cfg.Claims[ci].Prof))
+		if err != nil {
+			return "err"
+		}
+		u, ok := c.(unmarshalBoth)
+		if !ok {
+			return "n/a"
+		}
+		if op.D%2 == 0 {
+			return digestClaims(c, u.UnmarshalCBOR(cp(e.cbor[ci])))
+		}
+		return digestClaims(c, u.UnmarshalJSON(cp(e.jsn[ci])))
 	case "dec-cbor-damaged":
 		// a structurally damaged message (missing member, wrong type, ...): decoding fails part-way
 		b, _ := applyTreeFault(cp(e.cbor[ci]), op.C*7+op.D, op.D+len(treeSubst)+1)
